@@ -391,10 +391,17 @@ func catalogue() []entry {
 			if g.Chance(1, 5) {
 				crash = 1 + g.Intn(3)
 			}
-			return call{desc: fmt.Sprintf("graph %d root=%d stub=%v crashEnterAt=%d", i, root, stub, crash), run: func(r *R) {
+			big := p.big != nil && g.Chance(1, 2)
+			if big {
+				root = g.Intn(8)
+			}
+			return call{desc: fmt.Sprintf("graph %d root=%d stub=%v crashEnterAt=%d big=%v", i, root, stub, crash, big), run: func(r *R) {
 				var gr graph.Graph = p.igraphs[i]
 				if stub {
 					gr = &simenv.SimGraph{Adj: p.adj[i]}
+				}
+				if big {
+					gr = p.big
 				}
 				r.Is(graphalg.PreOrder(gr, root)).Is(graphalg.PostOrder(gr, root))
 				var ev []int
